@@ -29,6 +29,10 @@ CHECKS = [
      "technique": "explicit-state breadth-first exploration of operation histories on the real columnfile object with canonical-state de-duplication, against a reference model (ordered dict of lists)",
      "text": "BFS over all histories of depth <= 4 (thorough 5) over a 25-operation alphabet (addcolumn/setcolumn/item/attribute assignment scalar and array, in-place writes through each view, filter, removerows, sortby, reorder, copy, copyrows, get/set bigarray list and 2-D, chkarray, writefile) from four initial objects (addcolumn-built, text file, dict, HDF); every transition is executed on the implementation; after each one the rectangular/self-consistency invariant, model equality and copy independence are checked.",
      "note": "argument values fixed per operation (fresh arrays, one mask, one permutation); canonical state = titles, values, dtypes, representation kind, alias relation of attribute vs stored column, bigarray bookkeeping"},
+    {"id": "C12", "engine": "E1-explore", "level": "exploration",
+     "technique": "bounded exhaustive enumeration of all frame histories over all binary images of small shapes, driven through the real labelimage merge path, against a 3-D connected-component reference",
+     "text": "every sequence of F<=3 frames over all 64 binary 2x3 images (266 304 histories incl. empty frames), all 512^2 two-frame 3x3 histories, all 16^4 2x2 and 256^2 2x4 histories (thorough: F=4 on 2x3, F=3 on 2x4, F=5 on 2x2, 3x4 pairs) plus a catalogue of 40-frame structured histories; pixel intensities are distinct powers of two so a peak's summed intensity identifies its voxel set; every output row is matched to a 3-D component and all 19 reported properties compared.",
+     "note": "level is exploration, not state-based: every history is executed in full on the implementation; oracle = own 3-D flood fill cross-checked with scipy.ndimage.label; text output precision (4 decimals) bounds the comparison tolerances"},
     # --- END CHECKS
 ]
 
